@@ -59,6 +59,13 @@ def cases(tier, rng, schema, feats):
             for idl in sorted(i for i in ids if i >= 0):
                 acd = "aa" * aag + ":" + rng.bytes(idl).hex() + ":" + "a5" * keylen
                 add("mc", rp, 0x41, 7, acd, "-")
+    # the aaguid is a slice too: every part across the frontier on its own and in pairs (lengths well beyond the capacity
+    # included - a size computed by subtraction must not underflow)
+    for aag in (0, 1, 15, 16, 17, 100, 300, 544, 600, 630, 636, 637, 638, 639, 640, 676, 677, 700, 1000, 4000):
+        for idl, keylen in ((0, 0), (1, 0), (0, 1), (16, 77), (637 - aag if aag <= 637 else 0, 0), (0, 638 - aag if aag <= 638 else 0), (300, 300)):
+            acd = "bb" * aag + ":" + rng.bytes(max(0, idl)).hex() + ":" + "a5" * max(0, keylen)
+            add("mc", rp, 0x41, 7, acd, "-")
+            add("mc", rp, 0xC1, 7, acd, gen.show(g.named_val("ctap2::make_credential::Extensions", present="all")))
     # get_assertion flavour with Some(NoAttestedCredentialData): contributes no bytes
     for flags in (0x01, 0x41, 0x81, 0xC5):
         add("ga", rp, flags, 9, "::", "-")
